@@ -159,9 +159,19 @@ func Str(maxLen int) *rapid.Generator[string] {
 // Value generates an abstract value of type ty.
 func Value(ty *ref.Type, o ValueOpts) *rapid.Generator[interface{}] {
 	return rapid.Custom(func(t *rapid.T) interface{} {
+		rapid.Bool().Draw(t, "_") // a Custom generator must consume data even for zero-width types
 		return drawValue(t, ty, o, o.DynDepth)
 	})
 }
+
+// DrawValue draws a value of type ty directly.
+func DrawValue(t *rapid.T, ty *ref.Type, o ValueOpts) interface{} { return drawValue(t, ty, o, o.DynDepth) }
+
+// DrawType draws a type directly.
+func DrawType(t *rapid.T, o TypeOpts) *ref.Type { return drawType(t, o, o.Depth) }
+
+// DrawDyn draws a dynamic value directly.
+func DrawDyn(t *rapid.T, o ValueOpts) ref.Dyn { return drawDyn(t, o, o.DynDepth) }
 
 func drawValue(t *rapid.T, ty *ref.Type, o ValueOpts, dyn int) interface{} {
 	switch ty.Kind {
@@ -252,7 +262,7 @@ func drawDyn(t *rapid.T, o ValueOpts, dyn int) ref.Dyn {
 		choices = append(choices, "raw")
 	}
 	if dyn > 0 {
-		choices = append(choices, "listm", "composite", "composite")
+		choices = append(choices, "listm", "listm", "composite", "composite", "composite", "composite")
 	}
 	switch rapid.SampledFrom(choices).Draw(t, "dyn") {
 	case "void":
@@ -274,10 +284,7 @@ func drawDyn(t *rapid.T, o ValueOpts, dyn int) ref.Dyn {
 		if ty.IsScalar() {
 			ty = ref.ListOf(ty)
 		}
-		// raw cannot appear inside a typed composite: `r` is not a signature.
-		oo := o
-		oo.NoRaw = true
-		return ref.Dyn{T: ty, V: drawValue(t, ty, oo, dyn-1)}
+		return ref.Dyn{T: ty, V: drawValue(t, ty, o, dyn-1)}
 	default:
 		kinds := o.DynLeaf
 		if kinds == nil {
